@@ -48,8 +48,9 @@ mod verif_driver_redeemers {
     }
 
     // a stake (reward) address of the test network: header 0xe0 | 28-byte key hash
+    // (tags of 0x80 and above stand for SCRIPT credentials: header 0xf0; the others for key credentials: header 0xe0)
     fn reward_address(tag: u8) -> Vec<u8> {
-        let mut v = vec![0xe0u8];
+        let mut v = vec![if tag & 0x80 != 0 { 0xf0u8 } else { 0xe0u8 }];
         v.extend(vec![tag; 28]);
         v
     }
@@ -147,8 +148,10 @@ mod verif_driver_redeemers {
         for (p, r) in c.mints.iter().chain(c.burns.iter()) {
             if let (Some(n), Some(ix)) = (r, policies.iter().position(|x| x == p)) { out.insert((1u8, ix as u32), *n); }
         }
+        // the ledger orders reward accounts by network, then credential KIND (script hashes before key hashes), then hash
+        // (cardano-ledger's derived Ord of RewardAccount / Credential; pallas-validate `sort_reward_accounts` implements the same)
         let mut accounts: Vec<u8> = c.withdrawals.iter().map(|(t, _)| *t).collect();
-        accounts.sort();
+        accounts.sort_by_key(|t| (if t & 0x80 != 0 { 0u8 } else { 1u8 }, *t));
         accounts.dedup();
         for (t, r) in &c.withdrawals {
             if let Some(n) = r { out.insert((3u8, accounts.iter().position(|x| x == t).unwrap() as u32), *n); }
@@ -260,6 +263,12 @@ mod verif_driver_redeemers {
         for amounts in [vec![0i128], vec![1], vec![u64::MAX as i128], vec![0, 5], vec![5, 0], vec![0, 0]] {
             let w: Vec<(u8, Option<i128>)> = amounts.iter().enumerate().map(|(i, _)| (if i == 0 { 0x02 } else { 0x01 }, Some(300 + i as i128))).collect();
             check(&Case { inputs: one.clone(), withdrawals: w, withdrawal_amounts: amounts.clone(), ..Default::default() }, "reward-redeemer-of-any-amount", &mut n);
+        }
+        // key and script credentials mixed: the script-guarded withdrawal is counted in the ledger's order (scripts first)
+        for (k, sc) in [(0x01u8, 0x82u8), (0x05, 0x81), (0x7f, 0x80)] {
+            check(&Case { inputs: one.clone(), withdrawals: vec![(k, None), (sc, Some(300))], ..Default::default() }, "reward-index-mixed-credential-kinds", &mut n);
+            check(&Case { inputs: one.clone(), withdrawals: vec![(sc, Some(300)), (k, None)], ..Default::default() }, "reward-index-mixed-credential-kinds", &mut n);
+            check(&Case { inputs: one.clone(), withdrawals: vec![(k, None), (sc, Some(300)), (sc.wrapping_add(1), Some(301))], ..Default::default() }, "reward-index-mixed-credential-kinds", &mut n);
         }
         // ---- all purposes together ----
         check(&Case { inputs: vec![(vec![(0x33, 1)], Some(100)), (vec![(0x11, 0)], Some(101))], mints: vec![(0xbb, Some(200))], burns: vec![(0xaa, Some(201))], withdrawals: vec![(0x02, Some(300)), (0x01, Some(301))], ..Default::default() }, "combined", &mut n);
